@@ -144,6 +144,11 @@ class MethodsMixin:
                 return ok(I(0, "usize"))
             if name in ("sync_all", "flush", "sync_data"):
                 return ok(UNIT)
+        if isinstance(rv, St) and rv.name == "JoinHandle":
+            if name == "join":
+                return ok(rv.f["result"])       # the thread body already ran (at spawn); it cannot panic unnoticed: panics are obligations
+            if name == "is_finished":
+                return True
         if isinstance(rv, St) and rv.name == "JsonText":
             if name in ("as_bytes", "as_str", "clone", "to_string", "as_ref", "to_owned", "trim", "trim_start", "trim_end"):
                 return rv           # JSON text / its truncations start with '{' and end with a non-blank: trimming changes nothing
@@ -346,6 +351,13 @@ class MethodsMixin:
             return rv
         if name == "to_string":
             return self.to_str(rv)
+        if name == "div_ceil":
+            o = D()
+            ip.panic(ip.eq(o, I(0)), "attempt to divide by zero")
+            if rv.conc() and o.conc():
+                return I(-(-rv.v // o.v) if o.v else 0, rv.ty or o.ty)
+            a, b = zi(rv), zi(o)
+            return I(z3.If(b == 0, 0, (a + b - 1) / b), rv.ty or o.ty)        # unsigned operands (usize / u64)
         if name in ("saturating_sub", "saturating_add", "saturating_mul"):
             o = D()
             ty = rv.ty or o.ty
